@@ -113,7 +113,7 @@ def modes():
 
 def main(argv):
     tier = argv[argv.index("--tier") + 1] if "--tier" in argv else "quick"
-    only = argv[argv.index("--only") + 1].split(",") if "--only" in argv else ["C01", "C07", "C08", "C10", "C13", "C14", "C18", "C20"]
+    only = argv[argv.index("--only") + 1].split(",") if "--only" in argv else ["C01", "C07", "C08", "C10", "C11", "C13", "C14", "C18", "C20"]
     t0 = time.time()
     failures, samples, cases = [], [], 0
 
@@ -200,6 +200,35 @@ def main(argv):
                         fail("tree#deepcopy.file_reader", dict(how=how, program="plain"), dict(copy=str(c)[:200]))
                 except BaseException as e:  # noqa
                     fail("tree#deepcopy.file_reader", dict(how=how, program="plain"), "%s: %s" % (type(e).__name__, str(e)[:120]))
+    if "C11" in only:
+        # directive processing changes the node type of directive-form comments only (a comment is of directive form when
+        # it is a full-line comment whose text starts with one of the sentinels; the forms are written here from the property)
+        import re as _re3
+        from fparser.two import Fortran2003 as F11
+        from fparser.two.utils import walk as _walk11
+        DIRECTIVE_FORM = _re3.compile(r"^(!\$[a-z]|c\$[a-z]|\*\$[a-z]|!dir\$|cdir\$|!gcc\$)", _re3.I)
+        comments = ["!$omp parallel do", "!dir$ ivdep", "!gcc$ unroll 4", "!$acc loop", "! plain", "!!dir$ ivdep", "! was: !gcc$ unroll 4",
+                    "! the old sentinel c$omp is not used", "!!$omp barrier", "! cdir$ novector", "!x *$omp", "!"]
+        body = CATALOGUE["plain"].splitlines()
+        for k, com in enumerate(comments):
+            for pos in (1, 3, 5, len(body) - 1):
+                src = "\n".join(body[:pos] + ["  " + com] + body[pos:]) + "\n"
+                cases += 1
+                try:
+                    keep = parse(src, "f2003", ignore_comments=False)
+                    proc = parse(src, "f2003", ignore_comments=False, process_directives=True)
+                except BaseException as e:  # noqa
+                    fail("comments#program_with_comment_parses", dict(comment=com, position=pos, source=src), "%s: %s" % (type(e).__name__, str(e)[:100]))
+                    continue
+                a = [(type(n).__name__, str(n).strip()) for n in _walk11(keep, (F11.Comment, F11.Directive)) if str(n).strip()]
+                b = [(type(n).__name__, str(n).strip()) for n in _walk11(proc, (F11.Comment, F11.Directive)) if str(n).strip()]
+                want = [("Directive" if DIRECTIVE_FORM.match(t) else "Comment", t) for _k, t in a]
+                if [t for _k, t in a] != [com] or any(kk != "Comment" for kk, _t in a):
+                    fail("comments#kept_once_as_comment", dict(comment=com, position=pos, source=src), dict(found=a))
+                if b != want:
+                    fail("comments#directive_node_exactly_for_directive_form", dict(comment=com, position=pos, source=src), dict(found=b, expected=want))
+                if str(keep) != str(proc):
+                    fail("comments#directive_processing_changes_node_types_only", dict(comment=com, position=pos, source=src), dict(keep=str(keep)[:300], processed=str(proc)[:300]))
     if "C08" in only:
         base = CATALOGUE["plain"] + CATALOGUE["module"] + "subroutine k(w, n)\n  real, dimension(n) :: w\n  integer, intent(in) :: n\n  associate (a => w(1), b => (w(2) + 1.0))\n    a = b\n  end associate\n  open(unit=10, file='x')\n  nullify(p)\nend subroutine k\n"
         from checks import enum_registries as ER2
